@@ -179,6 +179,37 @@ def tri(b):
     return [NONE] if b is None else [1 if b else 0]
 
 
+
+# --------------------------------------------------------------------------
+# per-case deadline: "never fails to terminate" is part of C11; a case that runs longer than
+# CASE_DEADLINE seconds is reported as non-terminating instead of stalling the whole check
+# --------------------------------------------------------------------------
+import signal
+
+CASE_DEADLINE = 8
+
+
+class CaseDeadline(BaseException):
+    pass
+
+
+def _on_alarm(signum, frame):
+    raise CaseDeadline()
+
+
+def with_deadline(fn, seconds=CASE_DEADLINE):
+    """(True, fn()) or (False, None) when fn did not return within the deadline"""
+    old = signal.signal(signal.SIGALRM, _on_alarm)
+    signal.setitimer(signal.ITIMER_REAL, seconds)
+    try:
+        return True, fn()
+    except CaseDeadline:
+        return False, None
+    finally:
+        signal.setitimer(signal.ITIMER_REAL, 0)
+        signal.signal(signal.SIGALRM, old)
+
+
 def observe(url, encoding):
     """run parse + every documented accessor; returns (obs, info or None)"""
     try:
@@ -292,6 +323,17 @@ def property_failures(url, encoding, i, variants):
 def mode_parse(req):
     out = []
     for c in req['cases']:
+        done, res = with_deadline(lambda c=c: _parse_case(req, c))
+        if not done:
+            Rec.on = False
+            res = {'obs': ['%06x%06x' % (ERRM, 99)], 'oracles': {'enc': [], 'idna': [], 'ipv6': [], 'int': [], 'unq': [], 'lower': []},
+                   'bad': ['parse-raises-non-ValueError-kind-99-does-not-terminate'], 'url1': None, 'timeout': True}
+        out.append(res)
+    return {'results': out}
+
+
+def _parse_case(req, c):
+    if True:
         url = un6(c['url'])
         enc = c.get('enc', 'utf-8')
         Rec.reset(enc)
@@ -327,8 +369,7 @@ def mode_parse(req):
                     res['url1'] = h6(i.url)
                 except Exception:
                     pass
-        out.append(res)
-    return {'results': out}
+        return res
 
 
 # --------------------------------------------------------------------------
@@ -337,6 +378,14 @@ def mode_parse(req):
 def mode_components(req):
     out = []
     for c in req['cases']:
+        done, res = with_deadline(lambda c=c: _component_case(c))
+        out.append(res if done else {'err': 99, 'timeout': True})
+    return {'results': out}
+
+
+def _component_case(c):
+    out = []
+    if True:
         f = c['f']
         a = c['a']
         try:
@@ -370,7 +419,7 @@ def mode_components(req):
             raise
         except Exception as e:
             out.append({'err': kind(e)})
-    return {'results': out}
+    return out[0]
 
 
 # --------------------------------------------------------------------------
